@@ -36,6 +36,14 @@ def selftest():
 
 
 def main(argv=None):
+    alt = os.environ.get("VERIF_DENDROPY_SRC")
+    if alt:
+        # development aid only (testing a check against a scratch worktree); registered
+        # commands never set it, so they always import /repo/src through the editable install
+        sys.path.insert(0, os.path.realpath(alt))
+        import dendropy
+        assert os.path.realpath(dendropy.__file__).startswith(os.path.realpath(alt)), dendropy.__file__
+        print("NOTE: using dendropy from %s" % alt)
     ap = argparse.ArgumentParser(prog="verif")
     sub = ap.add_subparsers(dest="cmd")
     c = sub.add_parser("check")
